@@ -186,36 +186,80 @@ def cmp_is_natural(db, owner):
     return b['$a'] == ('p', 2) and b['$b'] == ('p', 3)
 
 
+def _covers_non_wildcard(lo, hi):
+    """Column range lo..hi covers 0..K-1 (hi None = to the end of the row): hi is K or K - 1 for the alphabet constant K."""
+    if norm(lo) != ('k', 0):
+        return False
+    if hi is None:
+        return True
+    for t in _subterms(hi):
+        if common.is_usize_const(t, 'K'):
+            return X.lin_eq(hi, t) or X.lin_eq(hi, ('bin', 'Sub', t, ('k', 1)))
+    return False
+
+
+def _subterms(e):
+    if isinstance(e, tuple):
+        if e and isinstance(e[0], str):
+            yield e
+        for x in e:
+            if isinstance(x, tuple):
+                yield from _subterms(x)
+
+
+def row_extreme(db, C, term, row):
+    """term denotes the minimum / maximum, under the natural order, of the non-wildcard columns of `row`:
+    (kind, description) or (None, reason).  Canonical form: (min_by | max_by)(natural cmp) over positions p of row[lo + p], unwrapped."""
+    from lm import reduce as RD
+    from . import reductions as RX
+    inner = RD.of_expr(C, term)
+    if inner is None or inner['op'] not in ('min_by', 'max_by') or not inner.get('unwrapped'):
+        return None, 'reason=unrecognised-shape: the per-row value is not an unwrapped min_by / max_by reduction'
+    t, pos = inner['term'], ('pos', inner['L'])
+    if not (t[0] == 'at' and t[2] == pos):
+        return None, f'reason=unrecognised-shape: reduced element is {X.show(t, 100)}'
+    src = t[1]
+    sv = RX.slice_view(src)
+    base, lo, hi = (sv if sv is not None else (src, ('k', 0), None))
+    if base != row:
+        return None, f'the per-row reduction reads {X.show(base, 80)}, not the current row'
+    ext = inner['extents']
+    if not (ext and len(ext) == 1 and ext[0] == ('len', src)):
+        return None, f'reason=unrecognised-shape: reduction extent {ext}'
+    if not _covers_non_wildcard(lo, hi):
+        return None, f'column range {X.show(lo, 30)}..{X.show(hi, 60) if hi is not None else ""} does not cover all non-wildcard columns 0..K-1'
+    A, B = ('sym', 'a'), ('sym', 'b')
+    c = RD.apply_fn(db, inner['cmp'], [A, B])
+    if c is None or m(('call~', 'Option::unwrap', (('call~', '::partial_cmp', (A, B)),)), c) is None:
+        return None, 'comparator is not |a, b| a.partial_cmp(b).unwrap()'
+    return inner['op'][:3], f'columns {X.show(lo, 10)}..{X.show(hi, 40) if hi is not None else ""}'
+
+
 def r94(db, ctx):
-    ctx.rule('R9.4', 'min_score / max_score / discretisation offsets sum, over every row, the min (resp. max) under the natural order '
-                     'of a column range covering all non-wildcard columns 0..K-1')
+    ctx.rule('R9.4', 'min_score / max_score sum, over every row, the min (resp. max) under the natural order '
+                     'of a column range covering all non-wildcard columns 0..K-1 (closure, function item, composed map and loop spellings are one canonical reduction)')
+    from . import reductions as RX
     n = 0
+    data = ('fld', ('p', 1), 'data')
     for nm, kind in (('min_score', 'min'), ('max_score', 'max')):
         f = db.fn(f'lightmotif::pwm::ScoringMatrix::{nm}')
-        b = reduce_summary(db, f)
-        if not b or m(('fld', ('p', 1), 'data'), b['$src']) is None:
-            ctx.fail('R9.4', f, nm, 'reason=unrecognised-shape: not self.data.iter().map(per-row reduction).sum()')
+        r, why = RX.returned_reduction(db, f)
+        if r is None:
+            ctx.fail('R9.4', f, nm, f'reason=unrecognised-shape: {why}')
             continue
-        clos = [c for c in db.fns.values() if c.kind == 'Closure' and c.raw.get('iparent') == f.path]
-        if len(clos) != 1:
-            ctx.fail('R9.4', f, nm, f'reason=unrecognised-shape: {len(clos)} row closures')
+        red, C = r
+        if red['op'] != 'add' or norm(red['init']) not in (('k', 0), ('k', 0.0)) or not RX.extent_is_rows(red['extents'], data):
+            ctx.fail('R9.4', f, nm, f'{nm} is a {red["op"]} reduction from {X.show(red["init"], 30)} over {red["extents"]}, expected the sum over all rows of self.data')
             continue
-        mm = minmax_closure(db, clos[0])
-        if not mm:
-            ctx.fail('R9.4', clos[0], nm, 'reason=unrecognised-shape: row closure is not row[range].iter().min_by/max_by(cmp).unwrap()')
+        k, desc = row_extreme(db, C, red['term'], ('at', data, ('pos', red['L'])))
+        if k is None:
+            ctx.fail('R9.4', f, f'{nm} row reduction', desc)
             continue
-        k, rng, cmp_ = mm
         if k != kind:
             ctx.fail('R9.4', f, f'{nm} comparator', f'{nm} reduces each row with {k}_by (sibling deviance: expected {kind}_by)')
             continue
-        if not range_covers(rng):
-            ctx.fail('R9.4', f, f'{nm} column range', f'column range {rng} does not cover all non-wildcard columns 0..K-1')
-            continue
-        if not cmp_is_natural(db, clos[0]):
-            ctx.fail('R9.4', f, f'{nm} order', 'comparator closure is not |a,b| a.partial_cmp(b).unwrap()')
-            continue
         n += 1
-        ctx.ok('R9.4', f, f'{nm} = sum over rows of {kind} over columns {show_rng(rng)}', ['natural partial_cmp order', 'all rows of self.data'])
+        ctx.ok('R9.4', f, f'{nm} = sum over rows of {kind} over {desc}', ['natural partial_cmp order', 'all rows of self.data'])
     ctx.floor('R9.4', n, 2, 'min_score / max_score')
 
 
@@ -340,24 +384,30 @@ def r95(db, ctx):
         else:
             ctx.fail('R9.5', f, 'empty counts', 'Ok construction not dominated by total != 0')
     # --- FrequencyMatrix::new
+    from lm import reduce as RD
     f = db.fn('lightmotif::pwm::FrequencyMatrix::new')
     R = X.Rec(f)
+    C = RD.RCanon(db, f, R)
     good = False
-    for bi in ok_constructions(f):
-        rels = G.relations(f, R, bi)
-        for r in rels:
-            if r[0] == 'true' and r[1][0] == 'call' and r[1][1].endswith('Iterator::all'):
-                clos = [c for c in db.fns.values() if c.kind == 'Closure' and c.raw.get('iparent') == f.path]
-                if len(clos) == 1:
-                    ce = norm(common.return_expr_single_path_allow(clos[0]))
-                    b = m(('bin', 'Lt', ('call~', 'f32::abs', (('bin', 'Sub', ('call~', 'Iterator::sum', ('_',)), ('k', 1.0)),)), '$tol'), ce)
-                    if b and b['$tol'][0] == 'k' and 0 < b['$tol'][1] <= 0.01:
-                        good = True
+    oks = ok_constructions(f)
+    for bi in oks:
+        for fact in RD.forall_facts(db, f, R, C, bi):
+            b = m(('lt', ('call~', 'f32::abs', (('bin', 'Sub', '$sum', ('k', 1.0)),)), '$tol'), fact['rel'])
+            if b is None or not (b['$tol'][0] == 'k' and 0 < b['$tol'][1] <= 0.01) or len(fact['pos']) != 1:
+                continue
+            Lf = next(iter(fact['pos']))
+            row = ('at', ('p', 1), ('pos', Lf))
+            red = RD.of_expr(C, b['$sum'])
+            if red is None or red['op'] != 'add' or red['term'] != ('at', row, ('pos', red['L'])) or red['extents'] != [('len', row)]:
+                continue
+            if fact['extents'].get(Lf) == [('rows', ('p', 1))]:
+                good = True
+    good = good and len(oks) == 1
     if good:
         n += 1
         ctx.ok('R9.5', f, 'Ok(FrequencyMatrix) only when every row satisfies |sum - 1| < 0.01')
     else:
-        ctx.fail('R9.5', f, 'row-sum validation', 'Ok construction is not guarded by all(|row| |sum(row) - 1| < tol<=0.01)')
+        ctx.fail('R9.5', f, 'row-sum validation', 'Ok construction is not reached only when, for every row of the data, |sum(row) - 1| < tol <= 0.01')
     ctx.floor('R9.5', n, 5, 'validation exits')
 
 
